@@ -254,6 +254,22 @@ fn gen_macro_case(t: &mut Tape) -> MacroCase {
         tail.1 = format!("{}dbq {}\ndwq {}\ndbq {}\n", rules, a, b, c);
         expr_arg = true;
     }
+    // v4: string literals that SPELL a placeholder (`"{n}"`): only the placeholder tokens of an inner line are replaced,
+    // never the same characters inside a string - neither in an argument text nor in the block's own text
+    if crate::engine::gen_version() >= 4 && tail.0.is_empty() && t.chance(1, 5) {
+        let lit = *t.pick(&["\"{n}\"", "\"a{n}b\"", "\"{s}\"", "\"{n}{n}\"", "\"{ n}\"", "\"{s},{n}\"", "\"{}\""]);
+        let k = t.draw(200);
+        if t.flip() {
+            let rules = "#ruledef braceq\n{\n    str3q {s}, {n} => n`8 @ s\n    say3q {s}, {n} => asm { str3q {s}, {n} }\n}\n";
+            tail.0 = format!("{}say3q {}, {}\n", rules, lit, k);
+            tail.1 = format!("{}str3q {}, {}\n", rules, lit, k);
+        } else {
+            let rules = format!("#ruledef braceq\n{{\n    str3q {{s}}, {{n}} => n`8 @ s\n    lit3q {{n}} => asm {{ str3q {}, {{n}} }}\n}}\n", lit);
+            tail.0 = format!("{}lit3q {}\n", rules, k);
+            tail.1 = format!("{}str3q {}, {}\n", rules, lit, k);
+        }
+        expr_arg = true;
+    }
     MacroCase { isa, macros, calls, plain, globals, forward_global: true, local_label_used, expr_arg, tail }
 }
 
